@@ -9,6 +9,14 @@ CHECKS = {
    tech="bounded exhaustive enumeration of decoder inputs and of values per length class, differential against the consensus (de)serialiser",
    text="Every byte string in the stated finite sets (all strings <= 2 bytes quick / <= 3 thorough, class and length-prefix alphabets, every truncation and prefix bit flip of valid encodings) is decoded by the real decoder and by clvmr; every tree in the stated sets is serialised, compared byte for byte with clvmr and decoded again. Exhaustive inside the bounds; says nothing about unstructured inputs longer than the bounds.",
    note="Trusted: clvmr 0.16.2 node_to_bytes/node_from_bytes as the consensus format; the harness's own 40-line serialiser is cross-checked against clvmr on every value."),
+ "C07": dict(engine="conv", cat="exploration", ref="DESIGN.md 4/C07",
+   tech="bounded exhaustive enumeration of atoms/trees in both integer modes; all-pairs equality check over a pool of rich values",
+   text="Every atom of length 0..2 (quick) / 0..3 (thorough, 16.8M) and every tree with <= 3 leaves over a 38-atom boundary alphabet is converted to rich form and back in both integer modes and its three tree hashes are compared with clvmr's and with an independent sha256 in the harness; for the equality clause ALL ordered pairs of a pool of ~1.7k rich values (every accepted text spelling and the converted form of each pool atom) are compared. Exhaustive inside these bounds.",
+   note="Trusted: clvmr tree_hash_from_stream (cross-checked against the harness's own sha256 tree hash). Hash collisions between unequal values are counted, not flagged (not observable through maps/sets; the property's '(and hash)' is read as consistency with ==)."),
+ "C09": dict(engine="conv", cat="exploration", ref="DESIGN.md 4/C09",
+   tech="bounded exhaustive enumeration of values in four syntactic positions, printer -> reader round trip through both syntaxes",
+   text="Every atom of length 0..2 (quick) / 0..3 (thorough) alone, as list head, as non-head element and as improper tail, every small tree over a 50-atom alphabet of printer/reader corner cases, and long-atom families, are disassembled under each operator-set version and re-assembled, and (fixed integer mode) printed by the modern printer and re-read by both the modern reader and the classic assembler; each result must be byte-identical. Clause (c), compiler outputs, is checked by the program-level engine when present.",
+   note="Trusted: nothing beyond byte equality of harness values; legacy integer mode excluded for the modern printer as the property states."),
  "C20": dict(engine="optab", cat="exploration", ref="DESIGN.md 4/C20",
    tech="complete enumeration of the finite operator tables plus one compiled-and-run program per operator",
    text="The property's domain is finite (49 names x 3 versions, 259 opcodes) and is enumerated completely on every run: inverse and monotonicity clauses on the tables, assembler/disassembler per opcode and version, and for each operator a hand-assembled program under the consensus evaluator compared with the tools' runner, the stepping evaluator (4 spellings) and code from the modern (cl21, cl24, optimise on/off) and classic compilers.",
